@@ -181,7 +181,7 @@ class C06(Prop):
             near, a, sa, cands = sample(rng)
             sa = [s for s in sa if _valid_clause(s) and "," not in s]
             sd = rng.randrange(1 << 30)
-            how = rng.choice(["str", "str", "list", "and"])
+            how = rng.choice(["str", "str", "list", "and", "gen"])
             base = {"clauses": sa, "how": how, "cands": cands, "combos": ALL9, "seed": sd}
             yield ("gate", base); k += 1
             yield ("filter_contains", base); k += 1
@@ -223,6 +223,8 @@ class C06(Prop):
                 return Specifier(cl[0], prereleases=ov)
             if how == "list":
                 return SpecifierSet([Specifier(c) for c in cl], prereleases=ov)
+            if how == "gen":          # any iterable of Specifier objects: here a one-shot generator
+                return SpecifierSet((Specifier(c) for c in cl), prereleases=ov)
             if any("," in c for c in cl):
                 raise G.Domain("comma inside a clause")
             if how == "and":
@@ -257,7 +259,7 @@ class C06(Prop):
 
         combos = [(None if o is None else bool(o), None if p is None else bool(p)) for o, p in inp.get("combos", ALL9)]
         rng = random.Random(inp.get("seed", 0))
-        kinds = [rng.choice("sv") for _ in inp["cands"]]
+        kinds = [rng.choice("ssvvSV") for _ in inp["cands"]]
         vers = [Version(c) for c in inp["cands"]]
 
         def matches_enabled(v, s=None):
@@ -331,6 +333,21 @@ class C06(Prop):
                 if got != wants:
                     return False, (f"{s!r}.filter({inp['cands']!r}, prereleases={p}) yields items {got or '[]'}, "
                                    f"expected {wants or '[]'} ({rule})")
+                # the answer is a function of the *sequence of items*, however the caller hands it over and consumes it:
+                # tuple / one-shot generator / iterator input, a second pass, a partially consumed result
+                for name, arg in (("tuple", tuple(items)), ("generator", (x for x in items)), ("iterator", iter(list(items)))):
+                    alt = G.index_list(items, list(s.filter(arg, prereleases=p)))
+                    if alt != got:
+                        return False, f"{s!r}.filter(<{name} of {inp['cands']!r}>, prereleases={p}) yields {alt or '[]'}, a list gives {got or '[]'}"
+                again = G.index_list(items, list(s.filter(items, prereleases=p)))
+                if again != got:
+                    return False, f"{s!r}.filter: a second pass over the same list yields {again or '[]'}, the first {got or '[]'}"
+                it = iter(s.filter(items, prereleases=p))
+                head = [x for _, x in zip(range(len(out) // 2), it)]
+                if [id(x) for x in head] != [id(x) for x in out[: len(out) // 2]]:
+                    return False, f"{s!r}.filter: the first {len(out) // 2} items of a partially consumed result differ from the full result"
+                if len(items) != len(inp["cands"]):
+                    return False, "filter() changed the length of the list it was given"
             return True, ""
 
         if law == "installed_base":
